@@ -597,6 +597,8 @@ func checkMain(id, tier string) int {
 				}
 			case "panic":
 				confirmed = nr.Result == "panic"
+			case "hang":
+				confirmed = nr.Result == "timeout"
 			}
 			sample := map[string]any{"run": rf.Run, "label": rf.Label, "inputs": rf.Readable, "native": nr.Result, "native_msg": nr.Msg, "confirmed": confirmed}
 			switch {
